@@ -19,6 +19,11 @@ pub struct Case {
     /// false: NearestGoodDayFajrIshaInvalid (library default), true: NearestGoodDayAllPrayersAlways
     pub all_prayers: bool,
     pub date: NaiveDate,
+    /// boundary-directed: move the latitude poleward (bisected to adjacent f64 values) to where the closest good date
+    /// just stops being good, and evaluate the last few latitudes at which it still is (there the twilight event sits
+    /// exactly on the edge of existence, |cos H| == 1)
+    #[serde(default)]
+    pub boundary_lat: bool,
 }
 
 /// Independent model of the search: k = 0,1,2,.. over (date-k, date+k), earlier first, using only
@@ -85,7 +90,61 @@ const FIXED_SITES: [(f64, f64, f64); 40] = [
 ];
 
 impl C09 {
+    fn boundary_directed(&self, c: &Case, st: &mut Stats) -> Result<(), Failure> {
+        let spec = ParamSpec::plain(c.method);
+        let params_none = spec.build();
+        let conv = compute_p(&c.site, &params_none, c.date, None);
+        if conv[&Prayer::Fajr].is_ok() && conv[&Prayer::Isha].is_ok() {
+            st.skip("boundary_directed_but_twilight_exists");
+            return Ok(());
+        }
+        let Some((gdate, _, _)) = model(&c.site, &params_none, c.date) else {
+            st.skip("model_finds_no_good_day_within_366_days");
+            return Ok(());
+        };
+        let sign = if c.site.lat.0 >= 0.0 { 1.0 } else { -1.0 };
+        let good = |lat: f64| -> bool {
+            let mut s = c.site;
+            s.lat = F(lat);
+            let t = compute_p(&s, &params_none, gdate, None);
+            t[&Prayer::Fajr].is_ok() && t[&Prayer::Isha].is_ok()
+        };
+        let (mut lo, mut hi) = (c.site.lat.0, sign * (c.site.lat.0.abs() + 3.0).min(64.0));
+        if !good(lo) || good(hi) {
+            st.skip("boundary_directed_bracket_not_found");
+            return Ok(());
+        }
+        for _ in 0..80 {
+            let mid = 0.5 * (lo + hi);
+            if mid == lo || mid == hi {
+                break;
+            }
+            if good(mid) {
+                lo = mid;
+            } else {
+                hi = mid;
+            }
+        }
+        for j in 0..5i64 {
+            // lo is the last latitude (towards the pole) at which gdate is still good; step towards the equator
+            let lat = f64::from_bits((lo.to_bits() as i64 - j) as u64);
+            let mut c2 = c.clone();
+            c2.site.lat = F(lat);
+            c2.boundary_lat = false;
+            self.check_inner(&c2, st).map_err(|mut f| {
+                f.signature = format!("{}:good-day-at-edge-of-existence", f.signature);
+                f.observed = format!("{} [latitude {:?}: {} f64 steps inside the latitude at which {} stops being a good day]", f.observed, lat, j, gdate);
+                f
+            })?;
+        }
+        st.class("boundary_directed_latitude_done");
+        Ok(())
+    }
+
     fn check_inner(&self, c: &Case, st: &mut Stats) -> Result<(), Failure> {
+        if c.boundary_lat {
+            return self.boundary_directed(c, st);
+        }
         st.eval();
         let mut spec = ParamSpec::plain(c.method);
         let params_none = spec.build();
@@ -208,8 +267,8 @@ impl Prop for C09 {
     fn strategy(&self, _tier: Tier) -> BoxedStrategy<Case> {
         let lat = (46.0..=64.0f64, any::<bool>()).prop_map(|(l, s)| if s { l } else { -l });
         let lat = prop_oneof![6 => lat, 1 => prop_oneof![Just(64.0), Just(-64.0), Just(46.0), Just(-46.0)], 2 => (55.0..=64.0f64, any::<bool>()).prop_map(|(l, s)| if s { l } else { -l })].boxed();
-        (gen::site_lat(lat, 2.0), gen::pick(&gen::ANGLE_METHODS), prop_oneof![3 => Just(false), 1 => Just(true)], 1600..=2399i32, 0.0..1.0f64, 0u8..10)
-            .prop_map(|(site, method, all_prayers, year, u, kind)| {
+        (gen::site_lat(lat, 2.0), gen::pick(&gen::ANGLE_METHODS), prop_oneof![3 => Just(false), 1 => Just(true)], 1600..=2399i32, 0.0..1.0f64, 0u8..10, prop_oneof![15 => Just(false), 1 => Just(true)])
+            .prop_map(|(site, method, all_prayers, year, u, kind, boundary_lat)| {
                 // dates weighted to the local summer and to the first/last 15 days of the year (constructed)
                 let north = site.lat.0 >= 0.0;
                 let len = if gen::is_leap(year) { 366 } else { 365 };
@@ -224,7 +283,7 @@ impl Prop for C09 {
                     _ => (u * len as f64) as i64,
                 };
                 let date = gen::clamp_date(gen::ymd(year, 1, 1) + chrono::Duration::days(doy.clamp(0, len - 1)));
-                Case { site, method, all_prayers, date }
+                Case { site, method, all_prayers, date, boundary_lat }
             })
             .boxed()
     }
@@ -250,6 +309,7 @@ impl Prop for C09 {
                 method: gen::ANGLE_METHODS[(si + di as usize) % 6],
                 all_prayers: (si + di as usize) % 5 == 0,
                 date: first + chrono::Duration::days(di as i64),
+                boundary_lat: false,
             };
             guarded(&c, || self.check_inner(&c, st))?;
         }
